@@ -567,6 +567,24 @@ func mcRunDelims(e *mcEnv) {
 			mcCodecTo(e, wgt, []uint64{4, 0x04030201, 9}, [][]byte{v})
 		})
 	}
+	// Winbox: every chunk header byte (length and type) of 1-, 2- and 3-chunk messages set to the interesting
+	// values and to the neighbours of the right one (to-from oracle on whatever is accepted)
+	for _, ul := range []int{10, 221, 222, 230, 476, 480} {
+		msg := mcWbEncode(mcWbUser(r, ul), r.Bytes(32), byte(r.Intn(2)))
+		for off := 0; off < len(msg); off += 257 {
+			for j := 0; j < 2 && off+j < len(msg); j++ {
+				o := msg[off+j]
+				for _, v := range []byte{0x00, 0x01, 0x06, 0xFE, 0xFF, o - 1, o + 1, o - 2, o + 2} {
+					if v == o {
+						continue
+					}
+					b := append([]byte(nil), msg...)
+					b[off+j] = v
+					mcCodecFrom(e, wb, b, true)
+				}
+			}
+		}
+	}
 	// Winbox: the payload (user name, NUL, key, parity) of a one-chunk and of a two-chunk message with each
 	// delimiter byte written at every position; the user name part also through ToBytes
 	for _, ul := range []int{4, 230} {
